@@ -22,6 +22,7 @@ second part is stated through a witness-free characterisation: c is untouched if
 c < addr1, or c >= addr1 + k*step, or (c - addr1) mod step != 0.
 """
 import ast
+import os
 import random
 
 import z3
@@ -61,129 +62,180 @@ def f_spec(op, b, v):
     return v
 
 
-def check_poke(rep, prop='C09'):
-    import skoolkit.snapshot as S
-    W = poly.W
-    stmts, loop_ix = poke_slice()
-    q = S.poke.__qualname__
-    STEPS = (1, 2, 3, 7, 16, 255, 256, 257, 4096)
+STEPS = (1, 2, 3, 7, 16, 255, 256, 257, 4096)
+
+
+class PokeEngine(Engine):
+    """A subscript of the paged Memory object itself (its flat 64K view) reads some byte - which
+    bank it comes from depends on the paging state, so nothing is known about it."""
+
+    def getitem(self, base, idx, node):
+        if isinstance(base, ObjModel) and base.name == 'memory' and isinstance(idx, (int, SV)):
+            return self.fresh('flat_view_byte', 0, 255)
+        return super().getitem(base, idx, node)
+
+    def setitem(self, base, idx, v, node):
+        if isinstance(base, ObjModel) and base.name == 'memory':
+            self.oblige('paged_poke_writes_the_named_bank_only', False, node)
+            return
+        return super().setitem(base, idx, v, node)
+
+
+QUICK_STEPS = (1, 3, 256)
+
+
+def poke_cases(steps=STEPS):
     cases = []
     for op in ('^', '+', ''):
         for paged in (False, True):
             cases.append((op, 1, paged, None))
             cases.append((op, 2, paged, None))
-            for st in STEPS:
+            for st in steps:
                 cases.append((op, 3, paged, st))
-    if True:
-        if True:
-            for op, nvals, paged, cstep in cases:
-                name = 'skoolkit.snapshot.poke[kernel; op=%r, %d address field(s)%s, %s]' % (op, nvals, '' if cstep is None else ' step=%d' % cstep, 'bank-prefixed' if paged else 'unpaged')
+    return cases
 
-                def start(eng, op=op, nvals=nvals, paged=paged, cstep=cstep):
-                    p = eng.path
-                    p.v = SV(z3.BitVec('value', W), 0, 255)
-                    p.a1 = SV(z3.BitVec('addr1', W), 0, 65535)
-                    p.a2 = SV(z3.BitVec('addr2', W), 0, 65535)
-                    p.st = cstep if cstep is not None else 1
-                    for x in (p.v, p.a1, p.a2):
-                        p.facts.append(z3.And(x.t >= x.lo, x.t <= x.hi))
-                    values = [p.a1, p.a2, p.st][:nvals]
-                    p.lo = p.a1
-                    p.hi = p.a2 if nvals >= 2 else p.a1
-                    p.step = p.st if nvals == 3 else 1
-                    p.j = SV(z3.BitVec('j_any', W), 0, 65535)
-                    p.c = SV(z3.BitVec('c_any', W), 0, 65535)
-                    p.facts.append(z3.And(p.j.t >= 0, p.j.t <= 65535, p.c.t >= 0, p.c.t <= 65535))
-                    if paged:
-                        p.facts.append(sv(p.hi - p.lo).t < 0x4000)
-                        banks = [SymMem('bank%d' % b, size=0x4000) for b in range(8)]
-                        p.banks = banks
-                        p.page = eng.fresh('page', 0, 255)
-                        snapshot = ObjModel(None, name='memory')
-                        snapshot.attrs['banks'] = SymList(list(banks), 'banks')     # indexed by page % 8: the engine forks per bank
-                        p.mem = None
-                        page = p.page
-                    else:
-                        p.mem = SymMem('mem')
-                        snapshot = p.mem
-                        page = None
-                    eng.call_models[id(S.get_int_param)] = lambda e, a, k, n: p.v
 
-                    def cell_of(a):
-                        return (a % 0x4000) if paged else a
+def poke_case(rep, prop, case):
+    import skoolkit.snapshot as S
+    W = poly.W
+    stmts, loop_ix = poke_slice()
+    q = S.poke.__qualname__
+    op, nvals, paged, cstep = case
+    name = 'skoolkit.snapshot.poke[kernel; op=%r, %d address field(s)%s, %s]' % (op, nvals, '' if cstep is None else ' step=%d' % cstep, 'bank-prefixed' if paged else 'unpaged')
 
-                    def untouched_at(arr, k, c):
-                        """cell c (an address in the unpaged case, a bank offset in the paged one) is not among the first k poked cells => unchanged"""
-                        if paged:
-                            cc = c & 0x3FFF
-                            rel = (cc - (p.lo & 0x3FFF)) & 0x3FFF       # distance from the first poked offset, modulo the bank size
-                        else:
-                            cc = c
-                            rel = cc - p.lo
-                        if isinstance(p.step, int):
-                            on_grid = True if p.step == 1 else cmpop('==', rel % p.step, 0)
-                        else:
-                            on_grid = SB(z3.URem(z3.If(sv(rel).t >= 0, sv(rel).t, z3.BitVecVal(0, W)), sv(p.step).t) == 0)
-                        hit = and_(cmpop('>=', rel, 0), cmpop('<', rel, k * p.step), on_grid)
-                        return or_(hit, SB(z3.Select(arr, sv(cc).t) == z3.Select(p.mem.arr0, sv(cc).t)))
+    def start(eng, op=op, nvals=nvals, paged=paged, cstep=cstep):
+        p = eng.path
+        p.v = SV(z3.BitVec('value', W), 0, 255)
+        p.a1 = SV(z3.BitVec('addr1', W), 0, 65535)
+        p.a2 = SV(z3.BitVec('addr2', W), 0, 65535)
+        p.st = cstep if cstep is not None else 1
+        for x in (p.v, p.a1, p.a2):
+            p.facts.append(z3.And(x.t >= x.lo, x.t <= x.hi))
+        values = [p.a1, p.a2, p.st][:nvals]
+        p.lo = p.a1
+        p.hi = p.a2 if nvals >= 2 else p.a1
+        p.step = p.st if nvals == 3 else 1
+        p.j = SV(z3.BitVec('j_any', W), 0, 65535)
+        p.c = SV(z3.BitVec('c_any', W), 0, 65535)
+        p.facts.append(z3.And(p.j.t >= 0, p.j.t <= 65535, p.c.t >= 0, p.c.t <= 65535))
+        if paged:
+            p.facts.append(sv(p.hi - p.lo).t < 0x4000)
+            banks = [SymMem('bank%d' % b, size=0x4000) for b in range(8)]
+            p.banks = banks
+            p.page = eng.fresh('page', 0, 255)
+            snapshot = ObjModel(None, name='memory')
+            snapshot.attrs['banks'] = SymList(list(banks), 'banks')     # indexed by page % 8: the engine forks per bank
+            p.mem = None
+            page = p.page
+        else:
+            p.mem = SymMem('mem')
+            snapshot = p.mem
+            page = None
+        eng.call_models[id(S.get_int_param)] = lambda e, a, k, n: p.v
 
-                    def mem_inv(arr, k):
-                        aj = p.lo + p.j * p.step
-                        old_j = SV(z3.Select(p.mem.arr0, sv(cell_of(aj)).t), 0, 255)
-                        done = or_(not_(and_(cmpop('<', p.j, k), cmpop('<=', aj, 65535))), SB(z3.Select(arr, sv(cell_of(aj)).t) == sv(f_spec(op, old_j, p.v)).t))
-                        return and_(done, untouched_at(arr, k, p.c))
+        def cell_of(a):
+            return (a % 0x4000) if paged else a
 
-                    def loop(e, node_):
-                        fr = e.frames[-1]
-                        if paged:
-                            p.mem = fr.loc['bank']
-                            p.pb = banks.index(p.mem)
-                            e.oblige('bank_is_page_mod_8', cmpop('==', p.page % 8, p.pb), node_)
-                        k = e.fresh('k', 0, 65536)
-                        arr = z3.Array('mem_k', z3.BitVecSort(W), z3.BitVecSort(W))
-                        e.oblige('inv.establish', SB(p.mem.arr == p.mem.arr0), node_)
-                        # range arguments as the code wrote them
-                        rng = [e.ev(a_) for a_ in node_.iter.args]
-                        if len(rng) != 3:
-                            raise poly.Refuse('poke loop is not range(a, b, step)')
-                        r_lo, r_hi, r_st = rng
-                        e.oblige('range_is_addr1_to_addr2_inclusive', and_(cmpop('==', r_lo, p.lo), cmpop('==', r_hi, p.hi + 1), cmpop('==', r_st, p.step)), node_)
-                        e.assume(cmpop('<=', p.lo + k * p.step, p.hi + p.step))
-                        p.mem.arr = arr
-                        e.assume(mem_inv(arr, k))
-                        # the universally quantified 'untouched' part of the hypothesis, instantiated at the cell poked next
-                        e.assume(untouched_at(arr, k, cell_of(p.lo + k * p.step)))
-                        e.fresh_n += 1
-                        if e.decide(SB(z3.Bool('iterate!%d' % e.fresh_n))):
-                            a = p.lo + k * p.step
-                            e.assume(cmpop('<', a, r_hi))
-                            e.assign(node_.target, a)
-                            e.exec_block(node_.body)
-                            e.oblige('inv.preserve', mem_inv(p.mem.arr, k + 1), node_)
-                            raise PathEnd()
-                        # exit: k is the number of terms of the range
-                        e.assume(not_(cmpop('<', p.lo + k * p.step, r_hi)))
-                        p.ghost = (k, arr)
-                    eng.loop_invariants = {(q, i): loop for i in loop_ix}
-                    val = {'^': '^1', '+': '+1', '': '1'}[op]
-                    p.locs = {'snapshot': snapshot, 'param_str': 'spec', 'val': val, 'page': page, 'values': SymList(list(values), 'values')}
-                    eng.run_stmts(S.poke, stmts, p.locs)
+        def untouched_at(arr, k, c):
+            """cell c (an address in the unpaged case, a bank offset in the paged one) is not among the first k poked cells => unchanged"""
+            if paged:
+                cc = c & 0x3FFF
+                rel = (cc - (p.lo & 0x3FFF)) & 0x3FFF       # distance from the first poked offset, modulo the bank size
+            else:
+                cc = c
+                rel = cc - p.lo
+            if isinstance(p.step, int):
+                on_grid = True if p.step == 1 else cmpop('==', rel % p.step, 0)
+            else:
+                on_grid = SB(z3.URem(z3.If(sv(rel).t >= 0, sv(rel).t, z3.BitVecVal(0, W)), sv(p.step).t) == 0)
+            hit = and_(cmpop('>=', rel, 0), cmpop('<', rel, k * p.step), on_grid)
+            return or_(hit, SB(z3.Select(arr, sv(cc).t) == z3.Select(p.mem.arr0, sv(cc).t)))
 
-                def post(p, prove, paged=paged):
-                    if hasattr(p, 'ghost'):
-                        k, arr = p.ghost
-                        prove('post.memory_is_loop_result', SB(p.mem.arr == arr))
-                    elif p.mem is not None:
-                        prove('post.no_loop_means_no_change', SB(p.mem.arr == p.mem.arr0))
-                    if paged:
-                        for b in range(8):
-                            if b != getattr(p, 'pb', None):
-                                prove('frame.bank%d' % b, len(p.banks[b].writes) == 0)
-                eng = Engine(inline_ok=lambda f: False, unknown_ok=True)
-                FuncVC(rep, prop, S.poke, name, eng).run(start, post, replay_poke)
-    rep.bounded.append({'function': 'skoolkit.snapshot.poke (step field of the address range)', 'contract': 'kernel contract for an explicit step', 'bound': 'steps %s; every other parameter symbolic (an arbitrary symbolic step makes the invariant non-linear: mod and product of two unknowns)' % (STEPS,), 'evaluations': len(STEPS)})
+        def mem_inv(arr, k):
+            aj = p.lo + p.j * p.step
+            old_j = SV(z3.Select(p.mem.arr0, sv(cell_of(aj)).t), 0, 255)
+            done = or_(not_(and_(cmpop('<', p.j, k), cmpop('<=', aj, 65535))), SB(z3.Select(arr, sv(cell_of(aj)).t) == sv(f_spec(op, old_j, p.v)).t))
+            return and_(done, untouched_at(arr, k, p.c))
+
+        def loop(e, node_):
+            fr = e.frames[-1]
+            if paged:
+                p.mem = fr.loc['bank']
+                p.pb = banks.index(p.mem)
+                e.oblige('bank_is_page_mod_8', cmpop('==', p.page % 8, p.pb), node_)
+            k = e.fresh('k', 0, 65536)
+            arr = z3.Array('mem_k', z3.BitVecSort(W), z3.BitVecSort(W))
+            e.oblige('inv.establish', SB(p.mem.arr == p.mem.arr0), node_)
+            # range arguments as the code wrote them
+            rng = [e.ev(a_) for a_ in node_.iter.args]
+            if len(rng) != 3:
+                raise poly.Refuse('poke loop is not range(a, b, step)')
+            r_lo, r_hi, r_st = rng
+            e.oblige('range_is_addr1_to_addr2_inclusive', and_(cmpop('==', r_lo, p.lo), cmpop('==', r_hi, p.hi + 1), cmpop('==', r_st, p.step)), node_)
+            e.assume(cmpop('<=', p.lo + k * p.step, p.hi + p.step))
+            p.mem.arr = arr
+            e.assume(mem_inv(arr, k))
+            # the universally quantified 'untouched' part of the hypothesis, instantiated at the cell poked next
+            e.assume(untouched_at(arr, k, cell_of(p.lo + k * p.step)))
+            e.fresh_n += 1
+            if e.decide(SB(z3.Bool('iterate!%d' % e.fresh_n))):
+                a = p.lo + k * p.step
+                e.assume(cmpop('<', a, r_hi))
+                e.assign(node_.target, a)
+                e.exec_block(node_.body)
+                e.oblige('inv.preserve', mem_inv(p.mem.arr, k + 1), node_)
+                raise PathEnd()
+            # exit: k is the number of terms of the range
+            e.assume(not_(cmpop('<', p.lo + k * p.step, r_hi)))
+            p.ghost = (k, arr)
+        eng.loop_invariants = {(q, i): loop for i in loop_ix}
+        val = {'^': '^1', '+': '+1', '': '1'}[op]
+        p.locs = {'snapshot': snapshot, 'param_str': 'spec', 'val': val, 'page': page, 'values': SymList(list(values), 'values')}
+        eng.run_stmts(S.poke, stmts, p.locs)
+
+    def post(p, prove, paged=paged):
+        if hasattr(p, 'ghost'):
+            k, arr = p.ghost
+            prove('post.memory_is_loop_result', SB(p.mem.arr == arr))
+        elif p.mem is not None:
+            prove('post.no_loop_means_no_change', SB(p.mem.arr == p.mem.arr0))
+        if paged:
+            for b in range(8):
+                if b != getattr(p, 'pb', None):
+                    prove('frame.bank%d' % b, len(p.banks[b].writes) == 0)
+    eng = PokeEngine(inline_ok=lambda f: False, unknown_ok=True)
+    import time as _t
+    _t0 = _t.time()
+    FuncVC(rep, prop, S.poke, name, eng).run(start, post, replay_poke)
+    if os.environ.get('POKEVC_TIMING'):
+        print('%6.1fs %s' % (_t.time() - _t0, name), flush=True)
+
+
+def _poke_worker(args):
+    case, prop = args
+    from props import common
+    sub = common.SubReport(prop)
+    try:
+        poke_case(sub, prop, case)
+    except Exception:
+        import traceback
+        sub.errors.append('poke kernel %s: checker crashed: %s' % (case, traceback.format_exc()[-400:]))
+    return sub.export()
+
+
+def check_poke(rep, prop='C09', tier='quick'):
+    from multiprocessing import Pool
+    from props import common
+    steps = QUICK_STEPS if tier == 'quick' else STEPS
+    cases = poke_cases(steps)
+    with Pool(common.NCPU) as pool:
+        for part in pool.imap_unordered(_poke_worker, [(c, prop) for c in cases]):
+            rep.merge(part)
+    rep.bounded.append({'function': 'skoolkit.snapshot.poke (step field of the address range)', 'contract': 'kernel contract for an explicit step', 'bound': 'steps %s; every other parameter symbolic (an arbitrary symbolic step makes the invariant non-linear: mod and product of two unknowns)' % (steps,), 'evaluations': len(steps)})
     rep.assume('poke kernel: the value is a byte (0..255), 0 <= addr1, addr2 <= 65535, 1 <= step; a bank-prefixed range spans fewer than 0x4000 addresses (beyond that offsets repeat and are poked more than once); '
                'spec-string splitting, _get_page and get_int_param are outside the slice')
+
+
 
 
 def replay_poke(vals, kind):
